@@ -173,7 +173,33 @@ def granular(chk, rng, quick):
             else:
                 chk.violation("broken-correspondence", {"what": "_add_procedure_calls vs model", "line": x,
                                                         "batches": batches, "earlier": prev, "impl": out}, False)
-    chk.extra["granular"] = {"regex_strings": len(xs), "strip_cases": len(cs), "add_cases": len(acases)}
+    # D. _add_procedure_calls on statements whose AST is known: model AND Spec (references of the statement)
+    scases = []
+    for text, st in stmts:
+        if st[0] in ("endassoc", "format", "goto"):
+            continue       # not handed to the method as they stand
+        line = I.mask(text)
+        prev = rng.choice(prev_pool)
+        scases.append((prev, st, line, I.add_calls([], prev, line)))
+        chk.count(("adds", str(prev), line), nontrivial="(" in line)
+    terms = [f"({coq_list(c_chain(c) for c in prev)}, {G.c_stmt(st)}, {cstr(line)}, "
+             f"{coq_opt(out, lambda o: coq_list(c_chain(c) for c in o))})" for prev, st, line, out in scases]
+    res = chk.coq_judge(IMPORTS, "list chain * stmt * str * option (list chain)", "judge_add_stmt", terms, shard=60)
+    if res is not None:
+        chk.traces += len(scases)
+        spec = [i for i in sorted(res) if res[i] & 2]
+        for idx in spec[:3] + [i for i in sorted(res) if not res[i] & 2][:2]:
+            prev, st, line, out = scases[idx]
+            if res[idx] & 2:
+                chk.disagreements += 1
+                chk.violation("failing-input", {"what": "_add_procedure_calls: the chains recorded for the statement differ from "
+                                                        "its references (missing, extra or repeated)", "line": line,
+                                                "batches": [], "earlier": prev, "impl": out}, True)
+            else:
+                chk.violation("broken-correspondence", {"what": "_add_procedure_calls vs model (statement with AST)",
+                                                        "line": line, "batches": [], "earlier": prev, "impl": out}, False)
+    chk.extra["granular"] = {"regex_strings": len(xs), "strip_cases": len(cs), "add_cases": len(acases),
+                             "add_cases_with_ast": len(scases)}
 
 
 # ----------------------------------------------------------------------------- end to end
